@@ -7,17 +7,28 @@ import z3
 DISCHARGED, REFUTED, UNKNOWN, COVERED, VACUOUS, FAILED = "discharged", "refuted", "unknown", "covered", "vacuous", "failed"
 
 
-def _mk(obl, axioms, timeout_ms, ematching_only):
-    s = z3.Solver()
+def _mk(obl, axioms, timeout_ms, ematching_only, variant=0):
+    """variant 0: the obligation as generated.  variant k > 0: the same formulas translated into a FRESH z3 context (term numbering
+    and therefore instantiation order change) with another random seed - used to retry queries that ran out of time, because
+    E-matching search is sensitive to such incidental details (an unstable query must not decide the verdict either way)."""
+    if variant == 0:
+        s = z3.Solver()
+        tr = lambda f: f
+    else:
+        ctx = z3.Context()
+        s = z3.Solver(ctx=ctx)
+        tr = lambda f: f.translate(ctx)
+        s.set("smt.random_seed", 7919 * variant)
     s.set("timeout", timeout_ms)
     if ematching_only:
         s.set("smt.mbqi", False)      # Boogie/Dafny style: pure E-matching; cannot answer sat
     for a in axioms:
-        s.add(a)
+        s.add(tr(a))
     for p in obl.pc:
-        s.add(p)
+        s.add(tr(p) if z3.is_expr(p) else p)
     if not obl.expect_sat:
-        s.add(z3.Not(obl.goal))
+        g = obl.goal if z3.is_expr(obl.goal) else z3.BoolVal(bool(obl.goal))
+        s.add(tr(z3.Not(g)))
     return s
 
 
@@ -72,6 +83,7 @@ def check(obl, axioms=(), timeout_ms=10000, want_smt2=False):
     """Two passes: (1) E-matching only (fast proofs, never `sat`); (2) if not unsat, the default
     configuration with model-based quantifier instantiation, which can also answer `sat`."""
     t0 = time.time()
+    retried = 0
     hard = timeout_ms / 1000.0 + 5
     if obl.expect_sat:
         s = _mk(obl, axioms, min(timeout_ms, 3000), False)
@@ -87,8 +99,19 @@ def check(obl, axioms=(), timeout_ms=10000, want_smt2=False):
                 # E-matching saturated without a proof (pass 1) and model-based instantiation ran out of
                 # time (pass 2): report the saturation verdict of pass 1
                 r, reason, model, s = r1, reason1, model1, s1
+            elif r == "unknown" and _is_budget(reason) and _is_budget(reason1):
+                # both passes ran out of time: retry the E-matching pass in fresh contexts (only a proof is accepted from a retry)
+                for variant in (1, 2):
+                    s2 = _mk(obl, axioms, timeout_ms, True, variant=variant)
+                    r2, reason2, _ = _hard_check(s2, hard, False)
+                    if r2 == "unsat":
+                        r, reason, model = r2, reason2, None
+                        retried = variant
+                        break
     dt = time.time() - t0
     out = {"name": obl.name, "kind": obl.kind, "line": obl.line, "seconds": round(dt, 3), "solver": "z3-5.1.0(api)"}
+    if retried:
+        out["retried_in_fresh_context"] = retried
     if obl.expect_sat:
         # anti-vacuity: a path condition that is *refutable* makes everything behind it vacuous.
         # sat = witnessed reachable; unknown = not refutable within the budget (quantified formulas
